@@ -81,6 +81,21 @@ CHECKS = {
         text="A SimpleService with generated method handlers (returning bytes, None, or rejecting) receives generated messages (all message types and return codes, ids equal/off-by-one/random, unicast/multicast, as objects or as bytes with several messages per datagram); the replies leaving the transport are decoded independently and must equal the reference decision (count, destination, type, return code by first failing check, echoed ids, payload).",
         note="Trusted: reference decision chain written from the statement, wire.py.",
     ),
+    "C13": dict(
+        technique="model-based property testing on a deterministic virtual-time event loop: Hypothesis filter sets, timing configurations and offer scripts placed relative to the find rounds, reference round schedule (reactive) and live-offer interval model",
+        text="1..4 watched filters with wildcards, generated timing configurations and scripts of offers (short and infinite TTL) and stop-offers placed before, within RES of, and after each scheduled round; every FindService message on the wire must fall on a round instant of the reference schedule (start + drawn initial delay, then doubling repetition delays), contain exactly the filters without a matching live offer (simultaneous arrivals/expiries accepted either way) with wildcards preserved and the find TTL, go to the multicast group, number at most 1+repetitions, and stop for good once everything is found.",
+        note="Trusted: reference matcher, interval model of live offers, wire.py, virtual loop. Filters are registered before start and never removed.",
+    ),
+    "C14": dict(
+        technique="model-based property testing on a deterministic virtual-time event loop: Hypothesis scripts of subscribe/stop-subscribe/start/stop placed around refresh ticks and inside one iteration, a model server applying the transmitted entries in order",
+        text="Scripts over 4 eventgroups (IPv4/IPv6, UDP/TCP local endpoints, two with equal ids) and 3 servers, finite TTL with refresh or infinite without; at every idle point a model server per destination that applied the decoded Subscribe/StopSubscribe entries in transmission order must hold exactly the requested eventgroups while the subscriber runs and none after stop; each Subscribe carries ids, TTL and exactly one endpoint option equal to the local endpoint and goes to the requested server; Subscribes of a pair that stays requested are at most one refresh interval apart.",
+        note="Trusted: wire.py, virtual loop, model server. Connection loss is outside this property's quantifier.",
+    ),
+    "C17": dict(
+        technique="model-based property testing on a deterministic virtual-time event loop: Hypothesis scripts of subscribe/unsubscribe/value updates/notify rounds/cyclic waits, set-of-endpoints reference model, independent decoding of every notification",
+        text="Scripts over 3 endpoints (IPv4/IPv6), an explicit and a cyclic eventgroup, including repeated subscribes, unsubscribes of non-members and refused subscriptions (0 or 2 endpoints, unknown eventgroup); per step group the multiset of decoded notifications (destination, event, payload) must equal the reference (initial notification per accepted subscribe, explicit rounds to exactly the current subscribers, complete cyclic rounds), with header fields and per-destination session ids checked on every message.",
+        note="Trusted: wire.py, virtual loop, reference model. Steps sharing an iteration with a round: issue-time and send-time state both accepted. The cyclic schedule itself is not fixed by the statement.",
+    ),
 }
 ALL = ["C%02d" % i for i in range(1, 21)]
 NOT_APPLICABLE = {p: "check not built yet in this revision (in progress); the technique applies" for p in ALL if p not in CHECKS}
